@@ -38,14 +38,16 @@ theorem stepClient_cases' {P : G → Prop} (g : G) (c : Client) (f : Fault)
     (hCreateRetry : ∀ rev key val r st, c.pc = .createRetry rev → c.kind.kv = (key, val) →
       doCommit g.cfg g.store (createOps key val rev) f = (r, st) →
       P (finishCreate (afterCommit g r st f key rev (some val) .absent) c key val rev r))
-    (hCreateOver : ∀ rev old key val r st, c.pc = .createOver rev old → c.kind.kv = (key, val) →
+    (hCreateOver : ∀ rev old att key val r st, c.pc = .createOver rev old att → c.kind.kv = (key, val) →
       doCommit g.cfg g.store [BOp.cas (idxKey key) (be8 rev) old, BOp.put (encode key rev) val] f = (r, st) →
       P (match r with
-         | .conflict _ _ => (afterCommit g r st f key rev (some val) .absent).setClient { c with pc := .createRecheck rev }
+         | .conflict _ _ => (afterCommit g r st f key rev (some val) .absent).setClient { c with pc := .createRecheck rev att }
          | r' => finishCreate (afterCommit g r st f key rev (some val) .absent) c key val rev r'))
-    (hCreateRecheck : ∀ rev key val, c.pc = .createRecheck rev → c.kind.kv = (key, val) →
+    (hCreateRecheck : ∀ rev att key val, c.pc = .createRecheck rev att → c.kind.kv = (key, val) →
       P (match g.store.get (idxKey key) with
-         | some _ => finishCreate g c key val rev (.conflict none none)
+         | some cur =>
+           if g.cfg.creatorNoReeval || att ≥ 3 then finishCreate g c key val rev (.conflict none none)
+           else createSawIndex g c key val rev cur (att + 1)
          | none => g.setClient { c with pc := .createRetry rev }))
     (hUpdateCommit : ∀ rev key val exp r st, c.pc = .updateCommit rev → c.kind = .update key val exp →
       doCommit g.cfg g.store [BOp.cas (idxKey key) (be8 rev) (be8 exp), BOp.put (encode key rev) val] f = (r, st) →
@@ -109,9 +111,9 @@ theorem stepClient_cases' {P : G → Prop} (g : G) (c : Client) (f : Fault)
     · simp only []
       generalize hdc : doCommit g.cfg g.store _ f = p
       obtain ⟨r, st⟩ := p
-      have hL := hCreateOver _ _ _ _ r st ‹_› rfl hdc
+      have hL := hCreateOver _ _ _ _ _ r st ‹_› rfl hdc
       cases r <;> simpa only [afterCommit] using hL
-  · cases kind <;> exact hCreateRecheck _ _ _ ‹_› rfl
+  · cases kind <;> exact hCreateRecheck _ _ _ _ ‹_› rfl
   · simp only []
     generalize hdc : doCommit g.cfg g.store _ f = p
     obtain ⟨r, st⟩ := p
@@ -137,7 +139,7 @@ def ReqKind.wval : ReqKind → Option Bytes
   | .delete _ _ => none
 
 def Pc.createPath : Pc → Bool
-  | .createCommit _ | .createReread _ | .createRetry _ | .createOver _ _ | .createRecheck _ => true
+  | .createCommit _ | .createReread _ | .createRetry _ | .createOver _ _ _ | .createRecheck _ _ => true
   | _ => false
 
 def ValOK (v : Bytes) : Prop := v ≠ [] ∧ v ≠ tombstone
@@ -316,11 +318,12 @@ theorem eff_finishCreate_idle {g : G} {c : Client} {g1 : G} (h : Mid g c g1 []) 
 
 theorem eff_createSawIndex {g : G} {c : Client} (hck : CK c) {key : Bytes} (val : Bytes)
     {rev : Nat} (hi : c.pc.inflight = some rev) (h0 : rev ≠ 0) (hk : key = c.kind.key)
-    (hcp : c.pc.createPath = true) (old : Bytes) :
-    IdleEff g c (createSawIndex g c key val rev old) := by
+    (hcp : c.pc.createPath = true) (old : Bytes) (att : Nat) :
+    IdleEff g c (createSawIndex g c key val rev old att) := by
+  have hne : (if att == 0 then CommitRes.err else CommitRes.conflict none none) ≠ .ok := by split <;> simp
   unfold createSawIndex
   split
-  · exact eff_finishCreate_idle (Mid.refl g c) hck val hi h0 hk (by simp)
+  · exact eff_finishCreate_idle (Mid.refl g c) hck val hi h0 hk hne
   · split
     · refine (Mid.refl g c).set (by simp) (by simp) rfl rfl (hck.setPc (fun _ => hck.path hcp)) ?_
       intro r' hr'
@@ -423,7 +426,7 @@ theorem stepClient_eff {g : G} {c : Client} (f : Fault) (hck : CK c) (hpos : ∀
       have hne := not_ok_of_idle ha
       split
       · split
-        · exact .inr (eff_createSawIndex hck val hi h0 hk hcp _)
+        · exact .inr (eff_createSawIndex hck val hi h0 hk hcp _ _)
         · refine .inr ((Mid.refl g c).set (by simp) (by simp) rfl rfl (hck.setPc (fun _ => hck.path hcp)) ?_)
           intro r' hr'
           simp only [Pc.held, Pc.inflight, Option.some.injEq] at hr'
@@ -436,7 +439,7 @@ theorem stepClient_eff {g : G} {c : Client} (f : Fault) (hck : CK c) (hpos : ∀
     have h0 := hpos rev hi
     have hk : key = c.kind.key := by rw [← ReqKind.kv_key, hkv]
     split
-    · exact .inr (eff_createSawIndex hck val hi h0 hk hcp _)
+    · exact .inr (eff_createSawIndex hck val hi h0 hk hcp _ _)
     · refine .inr ((Mid.refl g c).set (by simp) (by simp) rfl rfl (hck.setPc (fun _ => hck.path hcp)) ?_)
       intro r' hr'
       simp only [Pc.held, Pc.inflight, Option.some.injEq] at hr'
@@ -453,7 +456,7 @@ theorem stepClient_eff {g : G} {c : Client} (f : Fault) (hck : CK c) (hpos : ∀
       rw [afterCommit_idle ha]
       exact .inr (eff_finishCreate_idle (Mid.refl g c) hck val hi h0 hk (not_ok_of_idle ha))
   · -- createOver
-    intro rev old key val r st hpc hkv hdc
+    intro rev old att key val r st hpc hkv hdc
     have hi : c.pc.inflight = some rev := by rw [hpc]; rfl
     have hcp : c.pc.createPath = true := by rw [hpc]; rfl
     have h0 := hpos rev hi
@@ -471,13 +474,15 @@ theorem stepClient_eff {g : G} {c : Client} (f : Fault) (hck : CK c) (hpos : ∀
         subst hr'; exact .inl (Pc.held_of_inflight hi)
       · exact .inr (eff_finishCreate_idle (Mid.refl g c) hck val hi h0 hk hne)
   · -- createRecheck
-    intro rev key val hpc hkv
+    intro rev att key val hpc hkv
     have hi : c.pc.inflight = some rev := by rw [hpc]; rfl
     have hcp : c.pc.createPath = true := by rw [hpc]; rfl
     have h0 := hpos rev hi
     have hk : key = c.kind.key := by rw [← ReqKind.kv_key, hkv]
     split
-    · exact .inr (eff_finishCreate_idle (Mid.refl g c) hck val hi h0 hk (by simp))
+    · split
+      · exact .inr (eff_finishCreate_idle (Mid.refl g c) hck val hi h0 hk (by simp))
+      · exact .inr (eff_createSawIndex hck val hi h0 hk hcp _ _)
     · refine .inr ((Mid.refl g c).set (by simp) (by simp) rfl rfl (hck.setPc (fun _ => hck.path hcp)) ?_)
       intro r' hr'
       simp only [Pc.held, Pc.inflight, Option.some.injEq] at hr'
